@@ -13,13 +13,19 @@ from ..runner import Outcome
 from . import Check
 
 
-def expand_shared(obj, shared):
+PREFIXES = {}  # case prefixes of the case being expanded (set by expand_case_prefixes)
+
+
+def expand_shared(obj, shared, prefixes=None):
     if isinstance(obj, list):
         if len(obj) == 2 and obj[0] == "shared":
             return copy.deepcopy(shared[obj[1]])
-        return [expand_shared(x, shared) for x in obj]
+        if len(obj) == 4 and obj[0] == "caseprefix" and prefixes is not None:
+            # when(c1).then(v1) built once; every use continues the chain with its own branches
+            return ["case", copy.deepcopy(prefixes[obj[1]]) + copy.deepcopy(obj[2]), copy.deepcopy(obj[3])]
+        return [expand_shared(x, shared, prefixes) for x in obj]
     if isinstance(obj, dict):
-        return {k: expand_shared(v, shared) for k, v in obj.items()}
+        return {k: expand_shared(v, shared, prefixes) for k, v in obj.items()}
     return obj
 
 
@@ -68,7 +74,7 @@ def c10_case(draw, tier):
 
     def emit_shared(step):
         # the reference sees the expanded expressions, the case keeps the ["shared", k] form
-        o = plain_emit(expand_shared(step, shared))
+        o = plain_emit(expand_shared(step, shared, case.get("prefixes")))
         if o is not None:
             case["steps"][-1] = step
         return o
@@ -113,6 +119,26 @@ def c10_case(draw, tier):
             elif choice == "select":
                 var = g.v_select(var) or var
         results.append(var)
+    if draw(st.integers(0, 2)) == 0:
+        # a case-expression prefix object `p = when(c).then(v)` continued in different ways: p.when(..).then(..) must
+        # not change p
+        ints = [n for n, c in t0.visible if t0.fam[c] == "int"]
+        if ints:
+            col = lambda n: ["col", {"v": v0, "n": n}]  # noqa: E731
+            a = draw(st.sampled_from(ints))
+            piv = draw(st.integers(-2, 3))
+            case["prefixes"] = [[[["fn", "lt", [col(a), ["lit", piv]], {}], ["lit", -1]]]]
+            tails = [[[["fn", "eq", [["fn", "mod", [col(a), ["lit", 2]], {}], ["lit", 0]], {}], ["lit", 2]]],
+                     [[["fn", "gt", [col(a), ["lit", piv + 2]], {}], ["lit", 7]]],
+                     []]
+            var = v0
+            order = draw(st.permutations([0, 1, 2]))
+            for j, name in zip(order, ["cp1", "cp2", "cp3"]):
+                dflt = ["lit", 0] if draw(st.booleans()) else None
+                v2 = g.emit({"out": g.new_var(), "verb": "mutate", "in": var, "items": [[name, ["caseprefix", 0, tails[j], dflt]]]})
+                var = v2 or var
+            results.append(var)
+            kinds.append("caseprefix")
     case["results"] = results
     case["result"] = results[-1]
     case["kinds"] = kinds
@@ -178,6 +204,25 @@ class SharedBuilder(build.Builder):
         self.fp0 = {}
 
     def expr(self, e):
+        if e[0] == "caseprefix":
+            import pydiverse.transform as pdt
+
+            k = e[1]
+            if not self.shared_mode:
+                return super().expr(expand_shared(e, self.case["shared"], self.case["prefixes"]))
+            key = ("prefix", k)
+            if key not in self.cache:
+                w = None
+                for c, v in self.case["prefixes"][k]:
+                    w = (pdt.when(super().expr(c)) if w is None else w.when(super().expr(c))).then(super().expr(v))
+                self.cache[key] = w
+                self.fp0[key] = fingerprint(w)
+            w = self.cache[key]
+            for c, v in e[2]:
+                w = w.when(super().expr(c)).then(super().expr(v))
+            if e[3] is not None:
+                w = w.otherwise(super().expr(e[3]))
+            return w
         if e[0] == "shared":
             k = e[1]
             if self.shared_mode:
@@ -215,7 +260,7 @@ class C10(Check):
         out = Outcome()
         steps = case["steps"]
         expanded = dict(case)
-        expanded["steps"] = expand_shared(steps, case["shared"])
+        expanded["steps"] = expand_shared(steps, case["shared"], case.get("prefixes"))
         try:
             ref = refsem.run(expanded)
         except refsem.OutOfDomain as ex:
